@@ -180,36 +180,31 @@ class Module:
 
         def bind(n: str):
             bound[n] = bound.get(n, 0) + 1
-        stack = list(tree.body)
-        while stack:
-            s = stack.pop(0)
+        for s in tree.body:
+            if isinstance(s, ast.FunctionDef):
+                h = helper_of_def(s, True)
+                if h is not None:
+                    self.funcs[s.name] = h
             if isinstance(s, (ast.FunctionDef, ast.AsyncFunctionDef, ast.ClassDef)):
                 bind(s.name)
-                if isinstance(s, ast.FunctionDef):
-                    h = helper_of_def(s, True)
-                    if h is not None:
-                        self.funcs[s.name] = h
                 continue
-            if isinstance(s, (ast.Import, ast.ImportFrom)):
-                for al in s.names:
-                    bind((al.asname or al.name).split(".")[0])
-                    if isinstance(s, ast.Import) and al.asname is None:
-                        self.imports.add(al.name)
-                continue
-            for n in walk_scope(s):
-                if isinstance(n, (ast.Assign, ast.AnnAssign, ast.AugAssign)):
+            for n in walk_scope(s):      # every binding at module level, also inside if/try/with/for
+                if isinstance(n, (ast.FunctionDef, ast.AsyncFunctionDef, ast.ClassDef)):
+                    bind(n.name)
+                elif isinstance(n, (ast.Import, ast.ImportFrom)):
+                    for al in n.names:
+                        bind((al.asname or al.name).split(".")[0])
+                        if isinstance(n, ast.Import) and al.asname is None and n is s:
+                            self.imports.add(al.name)
+                elif isinstance(n, ast.Name) and isinstance(n.ctx, (ast.Store, ast.Del)):
+                    bind(n.id)
+                elif isinstance(n, ast.ExceptHandler) and n.name:
+                    bind(n.name)
+                elif isinstance(n, (ast.Assign, ast.AnnAssign)) and n is s:
                     tgs = n.targets if isinstance(n, ast.Assign) else [n.target]
-                    for tg in tgs:
-                        for x in ast.walk(tg):
-                            if isinstance(x, ast.Name):
-                                bind(x.id)
-                    if isinstance(n, (ast.Assign, ast.AnnAssign)) and n in tree.body and len(tgs) == 1 and isinstance(tgs[0], ast.Name) \
+                    if len(tgs) == 1 and isinstance(tgs[0], ast.Name) \
                             and isinstance(n.value, ast.Constant) and isinstance(n.value.value, str):
                         self.consts[tgs[0].id] = n.value.value
-                elif isinstance(n, (ast.For, ast.With, ast.NamedExpr, ast.Global, ast.Delete)):
-                    for x in ast.walk(n):
-                        if isinstance(x, ast.Name) and isinstance(x.ctx, (ast.Store, ast.Del)):
-                            bind(x.id)
         # `global X` inside any function may rebind a module name
         self.globals_written = {n for f in ast.walk(tree) if isinstance(f, ast.Global) for n in f.names}
         self.bound = bound
@@ -392,9 +387,34 @@ class Tr:
                 self.nonempty.add(test.id)
         elif isinstance(test, ast.UnaryOp) and isinstance(test.op, ast.Not):
             self.assume(test.operand, not val)
+        elif (x := self.len_of(test)) is not None:
+            if val:
+                self.nonempty.add(x)      # len(x) is truthy
+        elif isinstance(test, ast.Compare) and len(test.ops) == 1:
+            # len(x) <op> k  /  k <op> len(x)  with an integer literal k
+            a, op, b = test.left, type(test.ops[0]), test.comparators[0]
+            flip = {ast.Lt: ast.Gt, ast.Gt: ast.Lt, ast.LtE: ast.GtE, ast.GtE: ast.LtE, ast.Eq: ast.Eq, ast.NotEq: ast.NotEq}
+            if self.len_of(a) is None and self.len_of(b) is not None and op in flip:
+                a, op, b = b, flip[op], a
+            x = self.len_of(a)
+            if x is not None and isinstance(b, ast.Constant) and type(b.value) is int and op in flip:
+                k = b.value
+                if not val:      # the negation of the comparison holds
+                    op = {ast.Lt: ast.GtE, ast.GtE: ast.Lt, ast.Gt: ast.LtE, ast.LtE: ast.Gt, ast.Eq: ast.NotEq, ast.NotEq: ast.Eq}[op]
+                if (op is ast.Gt and k >= 0) or (op is ast.GtE and k >= 1) or (op is ast.NotEq and k == 0) \
+                        or (op is ast.Eq and k >= 1):
+                    self.nonempty.add(x)
         elif isinstance(test, ast.BoolOp) and isinstance(test.op, ast.And if val else ast.Or):
             for v in test.values:
                 self.assume(v, val)
+
+    def len_of(self, e: ast.AST) -> str | None:
+        """x when e is len(x) for a list variable x (and len is the builtin)"""
+        if isinstance(e, ast.Call) and isinstance(e.func, ast.Name) and e.func.id == "len" and self.name_is_global("len") \
+                and "len" not in self.mod.bound and len(e.args) == 1 and not e.keywords and isinstance(e.args[0], ast.Name) \
+                and e.args[0].id in self.vars and self.is_list(self.vars[e.args[0].id][1]):
+            return e.args[0].id
+        return None
 
     def it(self, e: ast.AST):
         """an expression in a position that consumes an iterable once: (gallina list, list type)"""
